@@ -200,6 +200,19 @@ pub fn generate_live(prop: &str, seed: u64, tier: &str, out: &mut dyn std::io::W
                     targs.push(format!("{}:{}", 2 + Rng::for_case(seed, 612, idx).below(20), 0x208f00u64));
                 }
             }
+            // C20: in some cases a module with a hole in it — a readable part of a file, an inaccessible anonymous page,
+            // another part of the same file (folded into one mapping whose system range covers all three) — is the
+            // principal mapping, addressed and referenced behind the hole
+            let holemod = prop == "C20" && Rng::for_case(seed, 613, idx).chance(1, 3);
+            if holemod {
+                let path = format!("{}/holemod.bin", run_dir("shared"));
+                if !std::path::Path::new(&path).exists() {
+                    let bytes: Vec<u8> = (0..8192u32).map(|i| (i * 5 + 9) as u8).collect();
+                    std::fs::write(&path, bytes).unwrap();
+                }
+                targs.push("-M".to_string());
+                targs.push(format!("{}|-|0:1:r,g:1,0x1000:1:rw", crate::rng::hex(path.as_bytes())));
+            }
             let t = match Target::spawn(&targs) {
                 Ok(t) => t,
                 Err(_) => continue,
@@ -255,6 +268,16 @@ pub fn generate_live(prop: &str, seed: u64, tier: &str, out: &mut dyn std::io::W
                     c.gregs[libc::REG_RIP as usize] = *r.pick(&[rip, 0x10, 0x10]) as i64;
                     c.gregs[libc::REG_RSP as usize] = t.read_u64(bt.regs_addr + 80) as i64;
                     cfg.crash = Some(c);
+                }
+                if holemod {
+                    if let Some(m) = t.desc["lmods"].as_array().and_then(|a| a.first()) {
+                        let behind = m["addr"].as_u64().unwrap() + 2 * 4096;
+                        cfg.principal = Some(behind + 64);
+                        let mut c = CrashSpec { tid: bt.tid, signo: 11, code: 1, addr: 0, fp_seed: r.next(), ..Default::default() };
+                        c.gregs[libc::REG_RIP as usize] = (behind + 128) as i64; // inside the principal mapping, behind the hole
+                        c.gregs[libc::REG_RSP as usize] = t.read_u64(bt.regs_addr + 80) as i64;
+                        cfg.crash = Some(c);
+                    }
                 }
             }
             let mut dest = RecDest::new(vec![], 0);
